@@ -84,8 +84,7 @@ def _proposed():
                 if pf == _tag_ctx(hf):
                     continue
                 for pl in _placements(hf):
-                    if kind == "render" and not _can_optimize(pf, _ctx_of(hf, pl)):
-                        continue        # D1 applies too: covered by its signature
+                    # (render: where D1 applies too the direct form is a raw inclusion and D1's signature covers the case)
                     out.append({"kind": "known",
                                 "signature": {"fam": "compose", "kind": kind, "rels": [rel], "outer": hf, "inner": pf, "ctx": pl,
                                               "how": "output", "tag": True, "direct": "other" if kind == "render" else "n/a"},
@@ -164,14 +163,15 @@ def judge(ctx, step, allobs, drift_every, pool=None, shard=2500):
 def mc_theorems(ctx, consts):
     """The design-level theorems over the whole space (no export)."""
     wd = ctx.stage("mc", FAMS)
-    rig.write_cfg(wd / "MC_Compose.cfg", constants=dict(consts, Mode="noexport"), invariants=["Theorems"])
+    mode = ctx.pick("noexport", "all")      # "all": also the render-fix-alone theorem (thorough tier)
+    rig.write_cfg(wd / "MC_Compose.cfg", constants=dict(consts, Mode=mode), invariants=["Theorems"])
     r = ctx.tlc(wd, "MC_Compose", workers=max(2, rig.NCPU // 2), timeout=1500, coverage=not ctx.quick)
     out = {"states": r.distinct, "transitions": r.generated, "wall": round(r.wall, 1), "holds": bool(r.ok), "named": None}
     if not r.ok:
         if not r.invariant_violated:
             raise Infra(f"MC_Compose failed: {wd}/MC_Compose.out\n" + rig.tail(r.out, 30))
         wd2 = ctx.stage("mc_named", FAMS)
-        rig.write_cfg(wd2 / "MC_Compose.cfg", constants=dict(consts, Mode="noexport"), invariants=THEOREMS)
+        rig.write_cfg(wd2 / "MC_Compose.cfg", constants=dict(consts, Mode="noexport"), invariants=THEOREMS if not ctx.quick else [t for t in THEOREMS if t != "RenderFixLeavesOnlyTag"])
         r2 = ctx.tlc(wd2, "MC_Compose", workers=4, timeout=1500, extra=["-continue"])
         out["named"] = sorted(set(r2.invariant_violated)) or r.invariant_violated
         out["tlc_out"] = str(wd2 / "MC_Compose.out")
@@ -216,7 +216,8 @@ def run(ctx, only_cases=None):
         drv = pool.submit(ctx.build_driver, "c16")
         fut["theorems"] = pool.submit(mc_theorems, ctx, consts)
         fut["diag_render"] = pool.submit(mc_diag, ctx, "mc_diag_r", "AsWrittenRenderRelations")
-        fut["diag_other"] = pool.submit(mc_diag, ctx, "mc_diag_o", "AsWrittenOtherRelations")
+        if not ctx.quick:
+            fut["diag_other"] = pool.submit(mc_diag, ctx, "mc_diag_o", "AsWrittenOtherRelations")
         cases = export_cases(ctx, consts)
         ctx.cov["cases_exported"] = sum(1 for _ in open(cases))
         drv.result()
@@ -241,40 +242,49 @@ def run(ctx, only_cases=None):
                    samples=[sample(o) for o in rig.pick_samples([o for o in allobs if nontrivial(o)] or allobs, 4, ctx.seed)])
     # sensitivity self-test (in the background): a corrupted observation must be rejected by the same Trace spec
     st = [corrupt(json.loads(json.dumps(o))) for o in rig.pick_samples([o for o in allobs if nontrivial(o)] or allobs, 3, ctx.seed + 7)]
-    selftest = pool.submit(judge, ctx, "trace_selftest", st, 1000000) if st and only_cases is None else None
+    for k, o in enumerate(st):
+        o["id"] = -1 - k            # judged together with the reproduction run below
     # judge
     drift_every = ctx.pick(3, 5)
-    bads, drift = judge(ctx, "trace", allobs, drift_every, pool=jpool)
+    bads, drift = judge(ctx, "trace", allobs, drift_every, pool=jpool, shard=ctx.pick(6000, 4000))
     ctx.cov["judged_bad_first_pass"] = len(bads)
     if drift["calib_bad"]:
         raise Infra(f"the atom table of Compose.tla does not describe the real output of {drift['calib_bad']} calibration file(s)")
     ctx.cov["model_drift"] = {"records": drift["records"], "every": drift_every, "aswritten_model_mispredicts": drift["aswritten"],
+                              "render_fix_only_model_mispredicts": drift["renderfixed"],
                               "fixed_model_mispredicts": drift["fixed"], "reference_differs": drift["ref"],
                               "ref_undefined": drift["ref_undefined"], "records_with_a_variant_not_built": drift["not_built"],
                               "aswritten_model_mispredicts_ids": drift["aswritten_ids"][:20]}
-    # reproduction guard: re-run the failing cases in a fresh process and judge again
+    # reproduction guard: re-run the failing cases in a fresh process and judge again (together with the corrupted
+    # observations of the self-test)
     confirmed = []
+    reobs = []
     if bads:
         cc = ctx.work / "confirm_cases.ndjson"
         rig.write_ndjson(cc, [case_of(b["obs"]) for b in bads])
         co = ctx.work / "confirm_obs.ndjson"
         ctx.drive("c16", cc, co, timeout=900)
-        b2, _ = judge(ctx, "trace_confirm", rig.read_ndjson(co), 1000000, pool=jpool)
+        reobs = rig.read_ndjson(co)
+    if only_cases is not None:
+        st = []
+    if reobs or st:
+        b2, _ = judge(ctx, "trace_confirm", reobs + st, 1000000, pool=jpool, shard=6000)
         again = {(b["id"], json.dumps(b["sig"], sort_keys=True)) for b in b2}
         confirmed = [b for b in bads if (b["id"], json.dumps(b["sig"], sort_keys=True)) in again]
         ctx.cov["unreproduced"] = len(bads) - len(confirmed)
         for b in confirmed:
             b["what"] = sample(b["obs"])
-    if selftest:
-        b3, _ = selftest.result()
-        ctx.cov["sensitivity_selftest"] = {"corrupted": len(st), "rejected": len(b3)}
-        if len(b3) < len(st):
-            raise Infra(f"sensitivity self-test failed: {len(st)} corrupted observations, only {len(b3)} rejected")
+        if st:
+            rejected = len({b["id"] for b in b2 if b["id"] < 0})
+            ctx.cov["sensitivity_selftest"] = {"corrupted": len(st), "rejected": rejected}
+            if rejected < len(st):
+                raise Infra(f"sensitivity self-test failed: {len(st)} corrupted observations, only {rejected} rejected")
     # model-level results
     for k, f in fut.items():
         res = f.result()
         if k == "theorems":
-            ctx.cov.update(states=res["states"], transitions=res["transitions"], mc_wall_s=res["wall"], mc_invariants=THEOREMS)
+            ctx.cov.update(states=res["states"], transitions=res["transitions"], mc_wall_s=res["wall"],
+                           mc_invariants=[t for t in THEOREMS if not (ctx.quick and t == "RenderFixLeavesOnlyTag")])
             if not res["holds"]:
                 ctx.cov["model_theorem_violated"] = {"invariants": res["named"], "tlc_out": res.get("tlc_out")}
             if "actions_never_taken" in res:
